@@ -53,6 +53,22 @@ pub struct DecOut {
     pub borrowed_inside: Option<bool>,
 }
 
+/// Outcome of one decoding call when only totality matters (the value is dropped inside).
+#[derive(Debug, Clone, Copy)]
+pub struct Raw {
+    pub ok: bool,
+    pub pos: usize,
+    /// entry-point specific anomaly detected by the wrapper itself
+    pub anomaly: Option<&'static str>,
+}
+
+pub fn raw_as<T: for<'b> Decode<'b, ()>>(b: &[u8], p: usize) -> Raw {
+    let mut d = Decoder::new(b);
+    d.set_position(p);
+    let r = d.decode::<T>();
+    Raw { ok: r.is_ok(), pos: d.position(), anomaly: None }
+}
+
 #[derive(Debug, Clone, PartialEq, Eq)]
 pub enum EncErr {
     Write,
@@ -1172,6 +1188,7 @@ pub struct TypeEntry {
     /// element size used by the allocation bound (size of the largest element type held in a growable container)
     pub elem_size: usize,
     pub decode: fn(&[u8], usize) -> DecOut,
+    pub raw: fn(&[u8], usize) -> Raw,
     pub values: fn() -> Vec<Box<dyn ErasedVal>>,
     pub borrowed: bool,
 }
@@ -1199,6 +1216,7 @@ macro_rules! entry {
             size_of: std::mem::size_of::<$t>(),
             elem_size: $elem,
             decode: decode_as::<$t>,
+            raw: raw_as::<$t>,
             values: vals::<$t>,
             borrowed: false,
         })
@@ -1334,6 +1352,10 @@ pub fn type_table() -> Vec<TypeEntry> {
         size_of: 16,
         elem_size: 8,
         decode: decode_str_ref,
+        raw: |b, p| {
+            let o = decode_str_ref(b, p);
+            Raw { ok: o.res.is_ok(), pos: o.pos, anomaly: if o.borrowed_inside == Some(false) { Some("borrowed result outside the input") } else { None } }
+        },
         values: || small_strings().into_iter().map(|s| Box::new(VRef::<str> { val: leak(s.into_boxed_str()), dec: decode_str_ref }) as Box<dyn ErasedVal>).collect(),
         borrowed: true,
     });
@@ -1344,6 +1366,10 @@ pub fn type_table() -> Vec<TypeEntry> {
         size_of: 16,
         elem_size: 8,
         decode: decode_byteslice_ref,
+        raw: |b, p| {
+            let o = decode_byteslice_ref(b, p);
+            Raw { ok: o.res.is_ok(), pos: o.pos, anomaly: if o.borrowed_inside == Some(false) { Some("borrowed result outside the input") } else { None } }
+        },
         values: || {
             small_bytes()
                 .into_iter()
@@ -1363,6 +1389,10 @@ pub fn type_table() -> Vec<TypeEntry> {
         size_of: 16,
         elem_size: 8,
         decode: decode_cstr_ref,
+        raw: |b, p| {
+            let o = decode_cstr_ref(b, p);
+            Raw { ok: o.res.is_ok(), pos: o.pos, anomaly: if o.borrowed_inside == Some(false) { Some("borrowed result outside the input") } else { None } }
+        },
         values: || {
             std::ffi::CString::small()
                 .into_iter()
@@ -1378,6 +1408,10 @@ pub fn type_table() -> Vec<TypeEntry> {
         size_of: 16,
         elem_size: 8,
         decode: decode_path_ref,
+        raw: |b, p| {
+            let o = decode_path_ref(b, p);
+            Raw { ok: o.res.is_ok(), pos: o.pos, anomaly: if o.borrowed_inside == Some(false) { Some("borrowed result outside the input") } else { None } }
+        },
         values: || {
             std::path::PathBuf::small()
                 .into_iter()
